@@ -152,10 +152,10 @@ let c15 tys =
   let sfix = spec_is_fixed t in
   (* inb / acc: every valid value's encoding lies within the bounds and is accepted
      (sizes_bound_encodings, view_decode_encode) *)
-  let base = Printf.sprintf "inb=1 acc=1 fixed=%s size=%s min=%s max=%s"
+  let base = Printf.sprintf "fixed=%s size=%s min=%s max=%s"
       (show_bool i.ti_fixed) (hn i.ti_size) (hn i.ti_min) (hn i.ti_max) in
   if n_lt smax two64 then
-    Printf.sprintf "%s spec_fixed=%s spec_size=%s spec_min=%s spec_max=%s" base
+    Printf.sprintf "inb=1 acc=1 %s spec_fixed=%s spec_size=%s spec_min=%s spec_max=%s" base
       (show_bool sfix) (hn (spec_fixed_len t)) (hn (spec_min_len t)) (hn smax)
   else base ^ " overflow=1"
 
@@ -564,6 +564,16 @@ let dispatch set_cfg cur_h cur_zh (op : string) (args : string list) : string =
   | "c03", [t; data] -> set_cfg "sha"; c03 !cur_zh t data
   | ("c03h" | "c10h"), [t; head; pad; tail] -> huge_expect t head pad tail
   | "c15", [t] -> c15 t
+  | "c04long", [_; t; l] ->
+    (* what the value machine's append / pop rules say for a list of ANY length (VMach.v_step:
+       append fails exactly at the limit and then changes nothing; otherwise one element more,
+       readable at the old length; pop undoes it), without building the list *)
+    (match ty_of t with
+     | TList (_, limit) ->
+       let l = nh l in
+       if n_lt l limit then Printf.sprintf "res=OK len=%s last=1 changed=1 back=1" (hn (N.succ l))
+       else Printf.sprintf "res=ERR len=%s same=1" (hn l)
+     | _ -> "DRIVER-ERROR c04long: not a list")
   | "bitbig", [total; desc; idx] -> bitbig total desc idx
   | "merk", [cfg; count; limit; leaves] -> set_cfg cfg; c08_merk !cur_h !cur_zh count limit leaves
   | "c08", [cfg; t; v] -> set_cfg cfg; c08 !cur_h !cur_zh t v
